@@ -66,7 +66,7 @@ func init() {
 	register(&Rule{
 		Name:  "SM-transitions",
 		Doc:   "for every state of the basic URL parser and every class of the current code point (the delimiters the code compares with, EOF, anything else) the set of possible outcomes - next state, staying, failure - equals the standard's transition table: every outcome of the standard is possible in the code and the code has no other (path walker over the state machine, no state override, with a base)",
-		Props: []string{"C01"},
+		Props: []string{"C01", "C06"},
 		Floor: 100,
 		Run: func(c *Ctx, s *core.Sink) {
 			m := BuildSM(c)
@@ -93,10 +93,17 @@ func init() {
 				states = append(states, st)
 			}
 			sort.Strings(states)
+			propsFor := func(state string) []string {
+				switch state {
+				case "StateNoScheme", "StateRelative", "StateRelativeSlash", "StateSpecialRelativeOrAuthority":
+					return []string{"C01", "C06"} // where a reference meets its base
+				}
+				return []string{"C01"}
+			}
 			for _, st := range states {
 				byClass := T[st]
 				if byClass == nil {
-					s.Unknown("trans/"+st, "-", "the state is not reached by the walker (no case clause, or no path leads to it)")
+					s.Unknown("trans/"+st, "-", "the state is not reached by the walker (no case clause, or no path leads to it)", propsFor(st)...)
 					continue
 				}
 				// classes the code distinguishes beyond the table's are refinements of OTHER
@@ -169,9 +176,9 @@ func init() {
 							if len(extra) > 0 {
 								msg += "; not in the standard: " + strings.Join(extra, ", ")
 							}
-							s.Bad(key, pos, msg)
+							s.Bad(key, pos, msg, propsFor(st)...)
 						default:
-							s.OK(key, pos, "{"+strings.Join(have, ", ")+"}")
+							s.OK(key, pos, "{"+strings.Join(have, ", ")+"}", propsFor(st)...)
 						}
 					}
 				}
@@ -180,7 +187,7 @@ func init() {
 			for st := range T {
 				if _, ok := spec.States[st]; !ok && st != "StateHostname" {
 					if cc := m.An.clauses[st]; cc != nil {
-						s.Bad("trans/"+st, c.P.Pos(cc.Pos()), "a state the standard's machine does not have is reachable when parsing")
+						s.Bad("trans/"+st, c.P.Pos(cc.Pos()), "a state the standard's machine does not have is reachable when parsing", "C01")
 					}
 				}
 			}
